@@ -262,11 +262,13 @@ func genReq(r *prng.R, url string, shapes []shape) string {
 				}
 				seen[k] = true
 				v := kv[1]
-				switch r.Intn(5) {
+				switch r.Intn(8) {
 				case 0:
 					v = strings.ToUpper(v)
 				case 1:
 					v = "zz"
+				case 2: // the required value as a PROPER part of the header's value: a header matches by its whole value
+					v = prng.Pick(r, []string{v + "0", "x" + v, v + "%2C%20other", "other%2C%20" + v, strings.ToUpper(v) + "x", v + v})
 				}
 				if r.Chance(8) {
 					k = strings.ToUpper(k) // a header name that was not lower-cased on the way in
